@@ -3,7 +3,7 @@
 (VERIF_REPO=<worktree>; /repo itself is never touched), records the outcome in meta.json.
 usage: runseeds.py [--tier T] [--jobs N] [--only-missing] [name...]"""
 import json, os, subprocess, sys, glob, concurrent.futures, shutil
-V = "/verif"
+V = os.path.dirname(os.path.dirname(os.path.abspath(__file__)))  # the tree this script belongs to (a vp-run snapshot works on its own copy)
 args = sys.argv[1:]
 tier, jobs, only_missing = "quick", 3, False
 while args and args[0].startswith("--"):
